@@ -559,13 +559,35 @@ def gen_deviation(rng, case, kind):
             return {"label": "unencodable", "op": "set", "i": i, "key": ["s", rng.choice(cand)],
                     "value": rng.choice([["o", False, 4], ["y", "b"], ["i", 2 ** 65], ["l", [["o", False, 4]]]])}
         return None
+    if kind == "wrong_equal":
+        # a value of a class the field does not allow that is EQUAL (==, same hash) to the conforming value the same
+        # field accepted a moment ago in the same message position: 1 / 1.0 / True, 0 / 0.0 / False
+        vals = dict((k[1], v) for k, v in (case["success_values"] if role == "success" else case["values"]))
+        order = [f for f in declared if f["kind"] == "types" and f["extra"] == "XNone" and f["key"] in vals]
+        rng.shuffle(order)
+        for f in order:
+            v, cl = vals[f["key"]], f["classes"]
+            alts = []
+            if v[0] == "i" and abs(v[1]) < 2 ** 53 and "TFloat" not in cl:
+                alts.append(["f", v[1]])
+            if v[0] == "f" and "TInt" not in cl:
+                alts.append(["i", v[1]])
+            if v[0] == "b" and "TInt" not in cl:
+                alts.append(["i", int(v[1])])
+            if v[0] == "b" and "TFloat" not in cl:
+                alts.append(["f", int(v[1])])
+            if v[0] in ("i", "f") and v[1] in (0, 1) and "TBool" not in cl and "TInt" not in cl:
+                alts.append(["b", bool(v[1])])
+            if alts:
+                return {"label": "wrong", "op": "set", "i": i, "key": ["s", f["key"]], "value": rng.choice(alts)}
+        return None
     if kind == "badkey":
         key = rng.choice([["y", True, "bk"], ["y", False, "bk"], ["o", 5]])
         return {"label": "badkey", "op": "set", "i": i, "key": key, "value": ["i", 1]}
     return None
 
 
-DEV_KINDS = ["missing", "extra", "wrong", "rejected", "unencodable", "badkey", "bool_as_int"]
+DEV_KINDS = ["missing", "extra", "wrong", "rejected", "unencodable", "badkey", "bool_as_int", "wrong_equal", "wrong_equal"]
 BAD_KEYS = ["_private", "task_uuid", "timestamp", "task_level", "message_type", "action_type", "action_status"]
 
 
